@@ -44,14 +44,7 @@ def run(chk):
                    "V8"]
     chk.assumptions = ["dynamic-slot mode and component nodes are not exercised (stub backend)",
                        "the Lean part proves branch selection and name normalisation; the end-to-end refinement create_refines is covered by the oracle only (partial)"]
-    from . import extractors
-    extractors.regen_all()
-    failed, log = chk.prove("GE.Thm.C04", THEOREMS)
-    for t in failed:
-        chk.violation("proof", f"obligation {t} no longer checks", theorem=t, log=log[-3000:])
-    ok, log = core.lake_build(["gedriver"])
-    if not ok:
-        raise core.BrokenTie("driver-build", log)
+    chk.model_tie([("GE.Thm.C04", THEOREMS)])
     rng = chk.rng.fork("c04")
     # ---- names: model vs hook -----------------------------------------------------------------
     names = ["a", "a-b", "a-b-c", "-a", "a-", "a--b", "A-b", "a-B", "x1-2y", "é-ü", "a.b-c", "hover-class", "data-a-b", "_-_", "-", "--", ""]
